@@ -341,9 +341,12 @@ async fn registration_task<F>(
                 ..
             } => {
                 debug!(path = %path, "Attaching new client downlink.");
-                if let (Ok(in_res), Ok(out_res)) =
-                    join(incoming_tx.reserve(), outgoing_tx.reserve()).await
-                {
+                // The permits are acquired one after the other (incoming first): holding a permit of
+                // the outgoing channel while waiting for the incoming channel can deadlock against
+                // the incoming task, which sends to the outgoing channel while it is not receiving.
+                let in_res = incoming_tx.reserve().await;
+                let out_res = outgoing_tx.reserve().await;
+                if let (Ok(in_res), Ok(out_res)) = (in_res, out_res) {
                     let (in_done_tx, in_done_rx) = trigger::trigger();
                     let (out_done_tx, out_done_rx) = oneshot::channel();
                     in_res.send(RegisterIncoming {
